@@ -103,7 +103,7 @@ Plan capacity_generate(uint64_t base, const std::string &prop, uint64_t index, i
                 case 11: p.ops.push_back(mk(W_BYTES, 0, payload(ro, tier))); break;
                 case 12: p.ops.push_back(mk(W_RAW, 0, payload(ro, tier))); break;
                 case 13: p.ops.push_back(mk(W_TO_WRITER, (int64_t)ro.below(prop == "C09" ? 5 : 4))); break;
-                default: p.ops.push_back(mk(W_COUNTER)); break;
+                default: p.ops.push_back(mk(ro.chance(1, 2) ? W_COUNTER : W_VERIFY)); break;
             }
         }
         p.note = "token soup";
@@ -122,6 +122,7 @@ Plan capacity_generate(uint64_t base, const std::string &prop, uint64_t index, i
             }
         }
         if (ro.chance(1, 6)) p.ops.insert(p.ops.begin() + (long)ro.below(p.ops.size() + 1), mk(ro.chance(1, 2) ? W_STRING_NULL : W_RAW_NULL, 3));
+        if (ro.chance(1, 25)) { p.par["null_init"] = 1; p.faults.push_back("F8:null_destination"); }
     }
     p.prefill = rd.next() | 1;
     p.par["only_cap"] = -1;
@@ -135,7 +136,7 @@ Result capacity_execute(const Plan &p, const ExecCtx &c) {
     Sink sink; sink.own = c.prop; sink.cnt = &r.cnt;
     // ---- reference
     std::vector<RefOp> ref; Bytes E; std::vector<size_t> bounds;     // bounds: piece start offsets
-    bool has_null = false;
+    bool has_null = p.P("null_init") != 0;
     for (auto &o : p.ops) { ref.push_back(ref_of(o)); if (ref.back().null_error) has_null = true; for (auto &pc : ref.back().pieces) { bounds.push_back(E.size()); E.insert(E.end(), pc.begin(), pc.end()); } }
     size_t S = E.size();
     std::vector<RefOp> ref2; for (auto &o : p.ops2) ref2.push_back(ref_of(o));
@@ -160,10 +161,13 @@ Result capacity_execute(const Plan &p, const ExecCtx &c) {
         WSession ws(tr, sink, r.cnt);
         ws.tag = fmt("c=%zu ", cap);
         ws.setup(p.prefill);
-        Outcome i = ws.call(mk(W_INIT, (int64_t)cap));
-        if (!i.ret) { sink.fail("C04.init", "binson_writer_init rejected a valid buffer"); break; }
+        bool null_init = p.P("null_init") != 0;
+        Outcome i = ws.call(mk(W_INIT, null_init ? -(int64_t)(cap + 1) : (int64_t)cap));
+        if (!null_init && !i.ret) { sink.fail("C04.init", "binson_writer_init rejected a valid buffer"); break; }
+        if (null_init && (i.ret || i.err == 0)) { sink.fail("C09.writer.null_init", "binson_writer_init with a NULL buffer returned true / latched no error"); break; }
         // reference state for this capacity
-        size_t used = 0, k = 0; bool failed = false, nullerr = false; size_t stored = 0;
+        size_t used = 0, k = 0; bool failed = null_init, nullerr = null_init; size_t stored = 0;
+        if (null_init) cap = 0;
         auto apply_ref = [&](const RefOp &ro) -> bool {      // returns expected return value of the call
             if (ro.null_error) { if (!failed) { failed = true; k = used; } nullerr = true; return false; }
             if (ro.refused) return false;        // nothing to extract: returns false, writer untouched (no latch)
@@ -175,6 +179,7 @@ Result capacity_execute(const Plan &p, const ExecCtx &c) {
             return !failed;
         };
         for (size_t oi = 0; oi < p.ops.size() && !sink.failed(); oi++) {
+            if (p.ops[oi].code == W_VERIFY) { ws.call(p.ops[oi]); continue; }      // exercised for memory safety only: its verdict is C05's business
             if (p.ops[oi].code == W_COUNTER) { Outcome o = ws.call(p.ops[oi]); if (o.size_out != used) sink.fail("C04.counter.midway", fmt("cap=%zu: get_counter=%zu after %zu calls, reference size so far %zu", cap, o.size_out, oi, used)); continue; }
             bool was_failed = failed;
             bool want = apply_ref(ref[oi]);
@@ -218,7 +223,7 @@ Result capacity_execute(const Plan &p, const ExecCtx &c) {
         ws.setup(p.prefill);
         ws.call(mk(W_INIT, (int64_t)S));
         bool all = true;
-        for (size_t oi = 0; oi < p.ops.size(); oi++) { if (p.ops[oi].code == W_COUNTER) continue; Outcome x = ws.call(p.ops[oi]); if (x.ret == ref[oi].refused) all = false; }
+        for (size_t oi = 0; oi < p.ops.size(); oi++) { if (p.ops[oi].code == W_COUNTER || p.ops[oi].code == W_VERIFY) continue; Outcome x = ws.call(p.ops[oi]); if (x.ret == ref[oi].refused) all = false; }
         if (!all || ws.err() != 0 || ws.counter() != S || (S && memcmp(ws.dest(), E.data(), S) != 0)) sink.fail("C04.retry", fmt("re-running the calls with a buffer of the reported size %zu did not succeed / fill it exactly (err=%s counter=%zu)", S, err_name(ws.err()), ws.counter()));
         points++;
     }
